@@ -1085,6 +1085,11 @@ func boundaryConfigs() []gConfig {
 			add(func(i *gIface) { i.routes = []gRoute{{prefix: a}, {prefix: b}} })
 		}
 	}
+	// PREF64 lifetime = 3 x max_interval rounded up to 8 s: fractional and boundary intervals
+	for _, mx := range []string{"4s", "5s", "5500ms", "8s", "8100ms", "8.000000001s", "10.6s", "16s", "600s", "1799.5s", "1800s", "2666ms", "2667ms"} {
+		mx := mx
+		add(func(i *gIface) { i.maxInterval = mx; i.pref64 = []*string{nil} })
+	}
 	for _, p := range append(append([]string{}, pref64Pool...), pref64Bad...) {
 		p := p
 		add(func(i *gIface) { i.pref64 = []*string{sp(p)} })
